@@ -333,6 +333,50 @@ func c01Histories(out *vu.Out, rng *vu.Rng, n int, focusGrants bool) {
 				cw.sync()
 			}
 		}
+		// compare: the long-lived controller against a controller freshly started on a copy of the current cluster
+		compare := func(final bool) {
+			longFiles := c01Confs(cw.lastCfg)
+			longMatches := vsMatchTableCoq(cw.lastCfg["/etc/nginx/conf.d/matches.json"])
+			longConds := vpAllConditions(cw.w)
+			fresh := &c01World{k8s: vpCloneCluster(cw.k8s)}
+			fresh.start()
+			freshFiles := c01Confs(fresh.lastCfg)
+			freshMatches := vsMatchTableCoq(fresh.lastCfg["/etc/nginx/conf.d/matches.json"])
+			freshConds := vpAllConditions(fresh.w)
+			// statuses: compare on the objects the fresh controller wrote
+			wrote := map[string]bool{}
+			for _, c := range freshConds {
+				wrote[strings.SplitN(c, "|", 2)[0]] = true
+			}
+			var longRel []string
+			for _, c := range longConds {
+				if wrote[strings.SplitN(c, "|", 2)[0]] {
+					longRel = append(longRel, c)
+				}
+			}
+			// the abstract state serves the classes of recorded findings only; at a checkpoint the cluster holds objects
+			// of both end states, so the Routes of both are listed
+			abs := b
+			if !final {
+				u := *b
+				u.Routes = append(append([]vsRoute(nil), a.Routes...), b.Routes...)
+				abs = &u
+			}
+			hops := append([]string(nil), humanOps...)
+			cflags := append([]string(nil), flags...)
+			if !final && c01MixedPaths(cw.k8s) {
+				// class of finding D33, decided on the objects actually in the cluster (the abstract state of a checkpoint is
+				// only an approximation): some HTTPRoute and some GRPCRoute share a path
+				cflags = append(cflags, "http-and-grpc-route-share-a-path")
+			}
+			term := vu.App("Case", abs.Coq(), c04Texts(longFiles), longMatches, c04Texts(freshFiles), freshMatches,
+				vu.StrList(longRel), vu.StrList(freshConds), vu.StrList(cflags))
+			human := map[string]any{"history": hops, "restarts": cw.restarts, "flags": cflags, "long_conds": longRel, "fresh_conds": freshConds,
+				"long_files": longFiles, "fresh_files": freshFiles, "compared": map[bool]string{true: "at the end", false: "at a checkpoint"}[final]}
+			out.Case(term, human, len(hops) >= 15, strings.Join(hops, ";"))
+			out.Tally("compared", map[bool]string{true: "end", false: "checkpoint"}[final])
+		}
+		checkpoints := 0
 		for _, o := range ops {
 			kind := c01Kind(o.obj)
 			f := c01Filter(kind)
@@ -367,6 +411,11 @@ func c01Histories(out *vu.Out, rng *vu.Rng, n int, focusGrants bool) {
 			if r.Chance(1, 4) {
 				flush()
 				humanOps = append(humanOps, "--- batch boundary")
+				// the queue has drained: the property must hold here too
+				if checkpoints < 2 && r.Chance(1, 4) {
+					checkpoints++
+					compare(false)
+				}
 			}
 			if r.Chance(1, 25) {
 				flush()
@@ -376,31 +425,7 @@ func c01Histories(out *vu.Out, rng *vu.Rng, n int, focusGrants bool) {
 			}
 		}
 		flush()
-		longFiles := c01Confs(cw.lastCfg)
-		longMatches := vsMatchTableCoq(cw.lastCfg["/etc/nginx/conf.d/matches.json"])
-		longConds := vpAllConditions(cw.w)
-		// ---- the fresh controller on the final cluster state (a copy of the cluster without statuses)
-		fresh := &c01World{k8s: vpCloneCluster(cw.k8s)}
-		fresh.start()
-		freshFiles := c01Confs(fresh.lastCfg)
-		freshMatches := vsMatchTableCoq(fresh.lastCfg["/etc/nginx/conf.d/matches.json"])
-		freshConds := vpAllConditions(fresh.w)
-		// statuses: compare on the objects the fresh controller wrote
-		wrote := map[string]bool{}
-		for _, c := range freshConds {
-			wrote[strings.SplitN(c, "|", 2)[0]] = true
-		}
-		var longRel []string
-		for _, c := range longConds {
-			if wrote[strings.SplitN(c, "|", 2)[0]] {
-				longRel = append(longRel, c)
-			}
-		}
-		term := vu.App("Case", b.Coq(), c04Texts(longFiles), longMatches, c04Texts(freshFiles), freshMatches,
-			vu.StrList(longRel), vu.StrList(freshConds), vu.StrList(flags))
-		human := map[string]any{"history": humanOps, "restarts": cw.restarts, "flags": flags, "long_conds": longRel, "fresh_conds": freshConds,
-			"long_files": longFiles, "fresh_files": freshFiles}
-		out.Case(term, human, len(humanOps) >= 15, strings.Join(humanOps, ";"))
+		compare(true)
 		out.Tally("ops", strconv.Itoa(len(humanOps)/10*10))
 		out.Tally("restarts", strconv.Itoa(cw.restarts))
 	}
@@ -608,4 +633,48 @@ func c01MutateOwnership(r *vu.Rng, c *vsCluster, boost int) {
 			}
 		}
 	}
+}
+
+// c01MixedPaths: does some HTTPRoute share a match path with some GRPCRoute (whatever their hostnames and parents)?
+func c01MixedPaths(k8s client.Client) bool {
+	ctx := context.Background()
+	paths := map[string]bool{}
+	var hrs gatewayv1.HTTPRouteList
+	_ = k8s.List(ctx, &hrs)
+	for _, r := range hrs.Items {
+		for _, ru := range r.Spec.Rules {
+			if len(ru.Matches) == 0 {
+				paths["/"] = true
+			}
+			for _, m := range ru.Matches {
+				if m.Path != nil && m.Path.Value != nil {
+					paths[*m.Path.Value] = true
+				} else {
+					paths["/"] = true
+				}
+			}
+		}
+	}
+	var grs gatewayv1.GRPCRouteList
+	_ = k8s.List(ctx, &grs)
+	for _, r := range grs.Items {
+		for _, ru := range r.Spec.Rules {
+			if len(ru.Matches) == 0 && paths["/"] {
+				return true
+			}
+			for _, m := range ru.Matches {
+				p := "/"
+				if m.Method != nil && m.Method.Service != nil {
+					p = "/" + *m.Method.Service
+					if m.Method.Method != nil {
+						p += "/" + *m.Method.Method
+					}
+				}
+				if paths[p] {
+					return true
+				}
+			}
+		}
+	}
+	return false
 }
